@@ -180,6 +180,9 @@ func workerOf(fn *ssa.Function) (*ssa.Function, *ssa.Go) {
 		if x, ok := in.(*ssa.Go); ok {
 			if f := an.StaticCallee(x); f != nil && f.Parent() == fn {
 				w, g = f, x
+			} else if f != nil && w == nil && f.Pkg == fn.Pkg && f.Blocks != nil && methodWorkerAcc(f) != nil {
+				// `go c.queryOne(addr, &acc)`: the worker is a method, its shared state a struct handed over by pointer
+				w, g = f, x
 			}
 		}
 	})
@@ -238,6 +241,10 @@ func c18fanin(c *an.Ctx) {
 		}
 		errsFV, lockFV := fv("errs"), fv("lock")
 		if errsFV == nil || lockFV == nil {
+			if acc := methodWorkerAcc(w); acc != nil {
+				faninMethodWorker(c, la, fn, w, g, acc, getv1, name, addrsIdx)
+				continue
+			}
 			c.Und(fn, "worker error bookkeeping", w.Pos(), "worker closure does not capture `errs` and `lock`")
 			continue
 		}
@@ -331,91 +338,7 @@ func c18fanin(c *an.Ctx) {
 			u, ok := an.Strip(a).(*ssa.UnOp)
 			return ok && u.X == errsAlloc
 		}
-		allFailed, someFailed := false, false
-		an.Instrs(fn, func(in ssa.Instruction) {
-			b, ok := in.(*ssa.BinOp)
-			if !ok {
-				return
-			}
-			if b.Op == token.EQL && isLenErrs(b.X) {
-				if a := lenArgOf(b.Y); a != nil && isParam(a, fn, addrsIdx) {
-					// true edge returns a non-PartialErr error
-					for _, t := range an.BoolTests(b) {
-						okA := true
-						q := &an.PathQ{Fn: fn, StartEdges: []an.Edge{t.True}, Sink: func(x ssa.Instruction, ps *an.PathState) bool {
-							r, ok := x.(*ssa.Return)
-							if !ok {
-								return false
-							}
-							// the error this path returns (a single-exit `return result, err` is resolved per path)
-							e := errOperand(r)
-							if sel := ps.Selected(e); sel != nil {
-								e = sel
-							}
-							call, isCall := an.Strip(an.Resolve(e)).(*ssa.Call)
-							return !(isCall && an.StdCallee(call, "fmt", "Errorf"))
-						}}
-						if _, bad := q.Find(); bad {
-							okA = false
-						}
-						if okA {
-							allFailed = true
-						}
-					}
-				}
-			}
-			if b.Op == token.GTR && isLenErrs(b.X) {
-				if k, isC := an.ConstInt(b.Y); isC && k == 0 {
-					for _, t := range an.BoolTests(b) {
-						okS := true
-						q := &an.PathQ{Fn: fn, StartEdges: []an.Edge{t.True}, Sink: func(x ssa.Instruction, ps *an.PathState) bool {
-							r, ok := x.(*ssa.Return)
-							if !ok {
-								return false
-							}
-							// the error this path returns (`return data, partialErr` behind a merge is resolved per path)
-							e := an.Resolve(ps.Selected(errOperand(r)))
-							mi, isMI := e.(*ssa.MakeInterface)
-							return !(isMI && typeStrShort(mi.X.Type()) == "clusterinfo.ErrList")
-						}}
-						if _, bad := q.Find(); bad {
-							okS = false
-						}
-						// the false edge returns nil error
-						q2 := &an.PathQ{Fn: fn, StartEdges: []an.Edge{t.False}, Sink: func(x ssa.Instruction, ps *an.PathState) bool {
-							r, ok := x.(*ssa.Return)
-							if !ok {
-								return false
-							}
-							e := errOperand(r)
-							if an.IsNilConst(e) || an.IsNilConst(ps.Selected(e)) {
-								return false
-							}
-							if kc, known := ps.ConstOf(e); known && kc.IsNil() {
-								return false
-							}
-							return true
-						}}
-						if _, bad := q2.Find(); bad {
-							okS = false
-						}
-						if okS {
-							someFailed = true
-						}
-					}
-				}
-			}
-		})
-		c.Check(allFailed, fn, "all upstreams failed => total error", fn.Pos(), "", name+" does not return a plain (non-partial) error exactly when len(errs) == number of upstreams: nsqadmin shows an empty view instead of 502, or 502 although some upstream answered")
-		c.Check(someFailed, fn, "some failed => partial error with data, none => nil", fn.Pos(), "", name+" does not return ErrList(errs) with the partial data when 0 < len(errs) < n (and nil otherwise)")
-		// Wait before reading the results
-		waited := false
-		an.Instrs(fn, func(in ssa.Instruction) {
-			if isStdCall(in, "sync", "(*WaitGroup).Wait") {
-				waited = true
-			}
-		})
-		c.Check(waited, fn, "results read after wg.Wait", fn.Pos(), "", name+" does not wait for its workers")
+		faninResultMapping(c, fn, name, addrsIdx, isLenErrs)
 	}
 }
 
@@ -908,4 +831,228 @@ func c18dedupe(c *an.Ctx) {
 		})
 		c.Check(eq, fn, "set helper compares by equality", fn.Pos(), "", "stringy."+name+" does not compare strings by equality")
 	}
+}
+
+// methodAcc describes the accumulator struct of a fan-in worker that is a method or function: the parameter that points to
+// it, its mutex field, its error list and its lock class.
+type methodAcc struct {
+	param   *ssa.Parameter
+	st      *types.Struct
+	named   *types.Named
+	lockIdx int
+	errsIdx int
+	class   string
+}
+
+func methodWorkerAcc(w *ssa.Function) *methodAcc {
+	for _, p := range w.Params {
+		pt, ok := p.Type().(*types.Pointer)
+		if !ok {
+			continue
+		}
+		nt, ok := pt.Elem().(*types.Named)
+		if !ok {
+			continue
+		}
+		st, ok := nt.Underlying().(*types.Struct)
+		if !ok {
+			continue
+		}
+		acc := &methodAcc{param: p, st: st, named: nt, lockIdx: -1, errsIdx: -1}
+		for i := 0; i < st.NumFields(); i++ {
+			ft := st.Field(i).Type()
+			if strings.HasSuffix(ft.String(), "sync.Mutex") {
+				acc.lockIdx = i
+			}
+			if sl, ok := ft.Underlying().(*types.Slice); ok && an.IsErrorType(sl.Elem()) {
+				acc.errsIdx = i
+			}
+		}
+		if acc.lockIdx >= 0 && acc.errsIdx >= 0 {
+			acc.class = nt.Obj().Name() + "." + an.FName(st.Field(acc.lockIdx))
+			return acc
+		}
+	}
+	return nil
+}
+
+// faninMethodWorker: clauses (b)–(d) of C18.fanin for a worker that is a method with an accumulator struct.
+func faninMethodWorker(c *an.Ctx, la *an.LockAnalysis, fn, w *ssa.Function, g *ssa.Go, acc *methodAcc, getv1 *ssa.Function, name string, addrsIdx int) {
+	fl := la.Fns[w]
+	fieldOf := func(addr ssa.Value) int {
+		fa, ok := addr.(*ssa.FieldAddr)
+		if !ok || an.Strip(fa.X) != ssa.Value(acc.param) {
+			return -1
+		}
+		return fa.Field
+	}
+	held := func(in ssa.Instruction) bool {
+		if fl == nil {
+			return false
+		}
+		must, _ := fl.At(in)
+		return must.Holds(acc.class, "", true)
+	}
+	// (b) every GETV1 failure: append to errs under the lock, then return
+	n := 0
+	for _, gc := range an.CallsTo(w, getv1) {
+		n++
+		succ, fail := an.ErrEdges(gc.Value())
+		q := &an.PathQ{Fn: w, StartEdges: fail, Sink: an.IsReturn, Cut: func(in ssa.Instruction, _ *an.PathState) bool {
+			st, ok := in.(*ssa.Store)
+			return ok && fieldOf(st.Addr) == acc.errsIdx && held(in)
+		}}
+		wit, f := q.Find()
+		q2 := &an.PathQ{Fn: w, StartEdges: fail, SinkEdge: func(e an.Edge, _ *an.PathState) bool { return an.EdgeIn(e, succ) },
+			Sink: func(in ssa.Instruction, _ *an.PathState) bool {
+				st, ok := in.(*ssa.Store)
+				if !ok {
+					return false
+				}
+				k := fieldOf(st.Addr)
+				return k >= 0 && k != acc.errsIdx
+			}}
+		_, f2 := q2.Find()
+		if f || f2 || len(fail) == 0 {
+			c.Bad(fn, "failed fetch is recorded and ends the worker", gc.Pos(), "a failed upstream fetch is not (only) recorded in errs under the mutex followed by return: the failure is lost (no warning / wrong 502 decision) or a zero-valued reply is merged into the view", wit)
+		} else {
+			c.OK(fn, "failed fetch is recorded and ends the worker", gc.Pos(), "")
+		}
+	}
+	if n == 0 {
+		c.Bad(fn, "worker fetches from its upstream", w.Pos(), "worker does not call GETV1", nil)
+	}
+	// (c) the accumulator's data fields only under its lock
+	for i := 0; i < acc.st.NumFields(); i++ {
+		if i == acc.lockIdx || strings.HasSuffix(acc.st.Field(i).Type().String(), "sync.WaitGroup") {
+			continue
+		}
+		bad := ""
+		an.Instrs(w, func(in ssa.Instruction) {
+			fa, ok := in.(*ssa.FieldAddr)
+			if !ok || fieldOf(fa) != i {
+				return
+			}
+			for _, r := range an.Referrers(fa) {
+				if _, isDbg := r.(*ssa.DebugRef); isDbg {
+					continue
+				}
+				if !held(r) {
+					bad = c.P.Pos(an.InstrPos(r))
+				}
+			}
+		})
+		fname := acc.st.Field(i).Name()
+		c.Check(bad == "", fn, "accumulator "+fname+" only under the mutex", w.Pos(), "", "the shared accumulator `"+fname+"` is touched at "+bad+" without the fan-in mutex: concurrent workers race on it (lost results, or a fatal concurrent map write)")
+	}
+	// (d) result mapping after Wait: the struct the go statement hands over
+	var accAlloc ssa.Value
+	for _, a := range g.Call.Args {
+		if al, ok := an.Strip(a).(*ssa.Alloc); ok && types.Identical(al.Type(), acc.param.Type()) {
+			accAlloc = al
+		}
+	}
+	isLenErrs := func(v ssa.Value) bool {
+		a := lenArgOf(v)
+		if a == nil || accAlloc == nil {
+			return false
+		}
+		u, ok := an.Strip(a).(*ssa.UnOp)
+		if !ok {
+			return false
+		}
+		fa, ok := u.X.(*ssa.FieldAddr)
+		return ok && fa.X == accAlloc && fa.Field == acc.errsIdx
+	}
+	faninResultMapping(c, fn, name, addrsIdx, isLenErrs)
+}
+
+// faninResultMapping: clause (d) of C18.fanin – how the collected errors decide between a total error, a partial error with
+// data, and nil.
+func faninResultMapping(c *an.Ctx, fn *ssa.Function, name string, addrsIdx int, isLenErrs func(ssa.Value) bool) {
+	allFailed, someFailed := false, false
+	an.Instrs(fn, func(in ssa.Instruction) {
+		b, ok := in.(*ssa.BinOp)
+		if !ok {
+			return
+		}
+		if b.Op == token.EQL && isLenErrs(b.X) {
+			if a := lenArgOf(b.Y); a != nil && isParam(a, fn, addrsIdx) {
+				// true edge returns a non-PartialErr error
+				for _, t := range an.BoolTests(b) {
+					okA := true
+					q := &an.PathQ{Fn: fn, StartEdges: []an.Edge{t.True}, Sink: func(x ssa.Instruction, ps *an.PathState) bool {
+						r, ok := x.(*ssa.Return)
+						if !ok {
+							return false
+						}
+						// the error this path returns (a single-exit `return result, err` is resolved per path)
+						e := errOperand(r)
+						if sel := ps.Selected(e); sel != nil {
+							e = sel
+						}
+						call, isCall := an.Strip(an.Resolve(e)).(*ssa.Call)
+						return !(isCall && an.StdCallee(call, "fmt", "Errorf"))
+					}}
+					if _, bad := q.Find(); bad {
+						okA = false
+					}
+					if okA {
+						allFailed = true
+					}
+				}
+			}
+		}
+		if b.Op == token.GTR && isLenErrs(b.X) {
+			if k, isC := an.ConstInt(b.Y); isC && k == 0 {
+				for _, t := range an.BoolTests(b) {
+					okS := true
+					q := &an.PathQ{Fn: fn, StartEdges: []an.Edge{t.True}, Sink: func(x ssa.Instruction, ps *an.PathState) bool {
+						r, ok := x.(*ssa.Return)
+						if !ok {
+							return false
+						}
+						// the error this path returns (`return data, partialErr` behind a merge is resolved per path)
+						e := an.Resolve(ps.Selected(errOperand(r)))
+						mi, isMI := e.(*ssa.MakeInterface)
+						return !(isMI && typeStrShort(mi.X.Type()) == "clusterinfo.ErrList")
+					}}
+					if _, bad := q.Find(); bad {
+						okS = false
+					}
+					// the false edge returns nil error
+					q2 := &an.PathQ{Fn: fn, StartEdges: []an.Edge{t.False}, Sink: func(x ssa.Instruction, ps *an.PathState) bool {
+						r, ok := x.(*ssa.Return)
+						if !ok {
+							return false
+						}
+						e := errOperand(r)
+						if an.IsNilConst(e) || an.IsNilConst(ps.Selected(e)) {
+							return false
+						}
+						if kc, known := ps.ConstOf(e); known && kc.IsNil() {
+							return false
+						}
+						return true
+					}}
+					if _, bad := q2.Find(); bad {
+						okS = false
+					}
+					if okS {
+						someFailed = true
+					}
+				}
+			}
+		}
+	})
+	c.Check(allFailed, fn, "all upstreams failed => total error", fn.Pos(), "", name+" does not return a plain (non-partial) error exactly when len(errs) == number of upstreams: nsqadmin shows an empty view instead of 502, or 502 although some upstream answered")
+	c.Check(someFailed, fn, "some failed => partial error with data, none => nil", fn.Pos(), "", name+" does not return ErrList(errs) with the partial data when 0 < len(errs) < n (and nil otherwise)")
+	// Wait before reading the results
+	waited := false
+	an.Instrs(fn, func(in ssa.Instruction) {
+		if isStdCall(in, "sync", "(*WaitGroup).Wait") {
+			waited = true
+		}
+	})
+	c.Check(waited, fn, "results read after wg.Wait", fn.Pos(), "", name+" does not wait for its workers")
 }
